@@ -182,7 +182,7 @@ def run(ctx, config='rel-all', shares=True):
     if shares:
         clients.check(ctx, config, 'R9')
         if config == 'rel-all':
-            c05.run(runner.Sub(ctx, 'R10', 'C05'), config)
+            c05.run(runner.Sub(ctx, 'R10', 'C05', only={'W1', 'R2'}), config)     # the borrow / lifetime half; Send / Sync says nothing about when chunks are freed
     # ---- R6 no destructors from reset/drop
     for key in ('drop', 'reset'):
         val = A.get(key)
